@@ -335,3 +335,34 @@ func VerifH_c10_unwatch() {
 	a, ok := vArrayOf(r)
 	vAssert("exec-runs-after-unwatch", ok && len(a) == 1)
 }
+
+// VerifH_c10_expiry: a watched key whose deadline passes between WATCH and
+// EXEC counts as modified; a key that was already expired when watched and
+// is still missing does not.
+func VerifH_c10_expiry() {
+	VerifSetup()
+	vSetNow(vT0, 0)
+	disp := vNewServer()
+	cs := vNewClientOn(disp)
+	kind := 1 + vChoice("kind", 4)
+	vSeed(cs, "k", kind, "v")
+	vCmd(cs, "EXPIRE", "k", "100")
+	expiredBeforeWatch := vBool("expired-before-watch")
+	if expiredBeforeWatch {
+		vSetNow(vT0+200, 0)
+	}
+	vAssert("watch-ok", vIsOK(vCmd(cs, "WATCH", "k")))
+	if !expiredBeforeWatch {
+		vSetNow(vT0+200, 0)
+	}
+	vCmd(cs, "MULTI")
+	vCmd(cs, "SET", "marker", "1")
+	r := vCmd(cs, "EXEC")
+	if expiredBeforeWatch {
+		a, ok := vArrayOf(r)
+		vAssert("exec-runs-when-key-was-already-gone", ok && len(a) == 1)
+	} else {
+		vAssert("exec-aborts-when-watched-key-expired", vIsNil(r))
+		vAssert("aborted-exec-has-no-effect", vIsInt(vCmd(cs, "EXISTS", "marker"), 0))
+	}
+}
